@@ -112,7 +112,8 @@ class SemiStrictBool:
 def validate_binary(value: Any) -> bytearray:
     try:
         value = b64decode(value)
-    except binascii.Error:
+    except (binascii.Error, TypeError, ValueError):
+        # TypeError: not text (a number, a list...); ValueError: text with non ASCII characters
         raise ValueError("Binary value not valid")
     return value
 
